@@ -328,7 +328,8 @@ def check_history(m, ys, coef, wname, mname, xs_seq=None):
     b, mm = coef
     seq = []
     n_ok = 0
-    for xs in (xs_seq if xs_seq is not None else itertools.product((0, 1, 2), repeat=m)):
+    # interior values vary fastest: consecutive calls share length, first and last abscissa (and the line), the weakest plausible memo key
+    for xs in (xs_seq if xs_seq is not None else sorted(itertools.product((0, 1, 2), repeat=m), key=lambda v: (v[0], v[-1], v[1:-1]))):
         xs = list(xs)
         seq.append(xs)
         yh = [float(xv) * mm + b for xv in xs]
